@@ -30,6 +30,7 @@ mod tables;
 use std::collections::BTreeMap;
 use std::path::{Path, PathBuf};
 
+#[derive(Clone, Debug)]
 pub struct Failure {
     pub file: String,
     pub item: String,
@@ -105,62 +106,61 @@ fn run(src: &Path, outdir: &Path, inv_json: &Path) -> R<Vec<String>> {
     }
     let srcs = Sources { files };
 
-    let mut notes = Vec::new();
-    let mut first_failure: Option<Failure> = None;
-
-    // the statement-level translators: independent of each other and of the inventory
-    type Translator = fn(&Sources) -> R<String>;
-    let independent: [(&str, Translator); 3] =
-        [("RequestParams.lean", request::extract), ("PollStep.lean", poll::extract), ("ResponseFlow.lean", respflow::extract)];
-    let mut later = Vec::new();
-    for (name, f) in independent {
-        match f(&srcs) {
-            Ok(content) => later.push((name, content)),
-            Err(e) => {
-                notes.push(format!("{name}: NOT translated"));
-                if first_failure.is_none() {
-                    first_failure = Some(e);
-                }
+    // Every generated file is translated on its own. A file whose source shape is outside the grammar is NOT
+    // rewritten (the previous translation stays, so the Lean project keeps building) and is reported as failed in the
+    // status file; bin/check turns that into a violation only for the properties whose obligations rest on that file.
+    let mut status: Vec<(String, Result<bool, String>)> = Vec::new();
+    let mut soft: Vec<Failure> = Vec::new();
+    let emit = |name: &str, r: R<String>, status: &mut Vec<(String, Result<bool, String>)>| match r {
+        Ok(content) => {
+            let path = if name == "inventory.json" { inv_json.to_path_buf() } else { outdir.join(name) };
+            status.push((name.to_string(), Ok(write_if_changed(&path, &content))));
+        }
+        Err(e) => status.push((name.to_string(), Err(format!("{}:{}: {}", e.file, e.item, e.expected)))),
+    };
+    emit("RequestParams.lean", request::extract(&srcs), &mut status);
+    emit("PollStep.lean", poll::extract(&srcs), &mut status);
+    emit("ResponseFlow.lean", respflow::extract(&srcs), &mut status);
+    emit("ErrorTables.lean", tables::extract(&srcs), &mut status);
+    match inventory::extract(&srcs) {
+        Ok(mut inv) => {
+            soft.append(&mut inv.soft_failures);
+            emit("ClientOps.lean", client::extract(&srcs, &inv), &mut status);
+            emit("Consts.lean", consts::extract(&srcs, &inv, &mut soft), &mut status);
+            emit("Inventory.lean", Ok(inventory::to_lean(&inv)), &mut status);
+            emit("inventory.json", Ok(serde_json::to_string_pretty(&inventory::to_json(&inv)).unwrap() + "\n"), &mut status);
+        }
+        Err(e) => {
+            let msg = format!("{}:{}: {}", e.file, e.item, e.expected);
+            for n in ["ClientOps.lean", "Consts.lean", "Inventory.lean"] {
+                status.push((n.to_string(), Err(msg.clone())));
             }
         }
     }
-
-    let old = (|| -> R<Vec<(&str, String)>> {
-        let inv = inventory::extract(&srcs)?;
-        let client_ops = client::extract(&srcs, &inv)?;
-        let tables = tables::extract(&srcs)?;
-        let consts = consts::extract(&srcs, &inv)?;
-        let js = serde_json::to_string_pretty(&inventory::to_json(&inv)).unwrap() + "\n";
-        Ok(vec![
-            ("ClientOps.lean", client_ops),
-            ("ErrorTables.lean", tables),
-            ("Consts.lean", consts),
-            ("Inventory.lean", inventory::to_lean(&inv)),
-            ("inventory.json", js),
-        ])
-    })();
-    match old {
-        Ok(files) => {
-            for (name, content) in files {
-                let path = if name == "inventory.json" { inv_json.to_path_buf() } else { outdir.join(name) };
-                let changed = write_if_changed(&path, &content);
-                notes.push(format!("{name}: {}", if changed { "rewritten" } else { "unchanged" }));
-            }
-        }
-        // the older translators' failure is reported first (as before); the new files are still written
-        Err(e) => first_failure = Some(e),
-    }
-    for (name, content) in later {
-        let changed = write_if_changed(&outdir.join(name), &content);
-        notes.push(format!("{name}: {}", if changed { "rewritten" } else { "unchanged" }));
-    }
-    match first_failure {
-        None => Ok(notes),
-        Some(e) => {
-            println!("extract partial: {}", notes.join("; "));
-            Err(e)
+    let js = serde_json::json!({
+        "files": status.iter().map(|(n, r)| (n.clone(), match r {
+            Ok(ch) => serde_json::json!({"ok": true, "rewritten": ch}),
+            Err(m) => serde_json::json!({"ok": false, "failure": m}),
+        })).collect::<serde_json::Map<String, serde_json::Value>>(),
+        "soft_failures": soft.iter().map(|e| format!("{}:{}: {}", e.file, e.item, e.expected)).collect::<Vec<_>>(),
+    });
+    let status_path = inv_json.with_file_name("extract-status.json");
+    std::fs::write(&status_path, serde_json::to_string_pretty(&js).unwrap()).expect("write status file");
+    let mut notes: Vec<String> = status.iter().map(|(n, r)| match r {
+        Ok(true) => format!("{n}: rewritten"),
+        Ok(false) => format!("{n}: unchanged"),
+        Err(_) => format!("{n}: NOT translated"),
+    }).collect();
+    for (n, r) in &status {
+        if let Err(m) = r {
+            println!("TRANSLATION-FAILURE[{n}]: {m}");
         }
     }
+    for e in &soft {
+        println!("TRANSLATION-SOFT-FAILURE: {}:{}: {}", e.file, e.item, e.expected);
+        notes.push(format!("soft: {}:{}", e.file, e.item));
+    }
+    Ok(notes)
 }
 
 fn main() {
@@ -174,7 +174,8 @@ fn main() {
             println!("extract ok: {}", notes.join("; "));
         }
         Err(f) => {
-            println!("TRANSLATION-FAILURE: {}:{}: {}", f.file, f.item, f.expected);
+            // only a source file that does not parse as Rust gets here
+            println!("TRANSLATION-FAILURE[*]: {}:{}: {}", f.file, f.item, f.expected);
             std::process::exit(1);
         }
     }
